@@ -5,6 +5,7 @@
 //   C12_BITS       its register width in bits   (lanes = C12_BITS / (8*sizeof(T)))
 //   C12I_NO_MUL8   simd_op_t<ctx,T>::mul has no 8-bit branch  (returns void: multiply does not compile)   x86 SSE/AVX, SIMDe
 //   C12I_NO_MUL64  ... no 64-bit branch                                                                   x86 SSE/AVX
+//   C12I_NO_MATMUL simd_op_t<ctx,T>::fmadd has no integer branch (calls the float / double intrinsic)     x86 AVX, SIMDe
 // and includes this file.
 //
 // The element type of the RESULT selects the instruction (element_type = get_element_type_t<output_t>) and the packed
@@ -12,8 +13,9 @@
 //   binary : na::add / subtract / multiply (a, b, casting::same_kind_t{}, ctx)      (result type = operand type T)
 //   outer  : na::add / subtract / multiply .outer(a, b, dtype<T>, ctx)
 //   reduce : na::add / multiply .reduce(a, axis, None, None, keepdims, ctx)          (result type T for every integer T)
+//   matmul : na::matmul(lhs row-major (M,K), rhs column-major (K,N), ctx)            (fmadd = mul + add; needs mul for the width)
 //
-// request : ibinary|iouter|ireduce dtype=i8|u8|i16|u16|i32|u32|i64|u64 op=add|subtract|multiply lanes=<L> ...
+// request : ibinary|iouter|ireduce|imatmul dtype=i8|u8|i16|u16|i32|u32|i64|u64 op=add|subtract|multiply lanes=<L> ...
 // answer  : ok shape=<simd result shape> val=<elements, decimal, row-major order>
 //           followed by " MISMATCH at=<k> simd=<v> scalar=<v> sshape=<scalar shape>" when the SIMD result is not
 //           bit-identical to the scalar evaluator's result; "unsupported" for an (op, type) pair without instruction.
@@ -21,6 +23,9 @@
 #include "nmtools/array/array/ufuncs/add.hpp"
 #include "nmtools/array/array/ufuncs/subtract.hpp"
 #include "nmtools/array/array/ufuncs/multiply.hpp"
+#ifndef C12I_NO_MATMUL
+#include "nmtools/array/array/matmul.hpp"
+#endif
 #include "nmtools/array/ndarray.hpp"
 #include "nmtools/array/index/ndindex.hpp"
 #include "nmtools/utility/at.hpp"
@@ -36,6 +41,7 @@ using namespace proto;
 namespace c12i {
 
 template <typename T> using row_t = na::ndarray_t<std::vector<T>, std::vector<size_t>>;
+template <typename T> using col_t = na::column_major_ndarray_t<std::vector<T>, std::vector<size_t>>;
 
 template <typename T> std::string show(T v) {
     if constexpr (std::is_signed_v<T>) return std::to_string((long long)v);
@@ -154,6 +160,21 @@ std::string handle_t(const std::string& kind, const Args& a) {
             if (op=="multiply") return cmp2<T>(na::multiply.outer(x, y, dt, ctx), na::multiply.outer(x, y, dt));
         } else if (op=="multiply") return "unsupported";
         return "unknown-op";
+    }
+    if (kind=="imatmul") {
+#ifdef C12I_NO_MATMUL
+        return "unsupported";
+#else
+        if constexpr (has_mul<T>()) {
+            // lhs row-major (M,K), rhs column-major (K,N), buffers in storage order: the pair eval_matmul accepts
+            auto l = make<T>(a,"lshape","ldata");
+            col_t<T> r; r.resize(nats(a,"rshape"));
+            auto d = values<T>(a,"rdata");
+            if (d.size() != (size_t)nm::size(r)) throw bad_args("data length");
+            for (size_t k=0;k<d.size();k++) r.data()[k] = d[k];
+            return cmp2<T>(na::matmul(l, r, ctx), na::matmul(l, r));
+        } else return "unsupported";
+#endif
     }
     if (kind=="ireduce") {
         auto x = make<T>(a,"shape","data");
